@@ -665,6 +665,42 @@ def enclosing_stmt18(n):
     return enclosing_stmt(n)
 
 
+def check_centroids(prog: Program, res: Result) -> None:
+    """Every framework computes centroids with generate_centroids(instances, anchor_ind=<the configured anchor>): the anchor
+    node where it is labelled, the bounding-box midpoint of the visible nodes where it is not.  A sibling that reads the
+    anchor node directly has NaN centroids (no crop, no centroid target) for exactly the instances whose anchor is missing,
+    while the other frameworks still produce them."""
+    R = "C18-frame"
+    gc = "sleap_nn.data.instance_centroids:generate_centroids"
+    sites = [(f"{CD}:CenteredInstanceDataset._fill_cache", "self.confmap_head_config.anchor_part"), (f"{CD}:CentroidDataset._fill_cache", "self.confmap_head_config.anchor_part"),
+             ("sleap_nn.data.get_data_chunks:centered_instance_data_chunks", "anchor_ind"), ("sleap_nn.data.get_data_chunks:centroid_data_chunks", "anchor_ind"),
+             ("sleap_nn.data.instance_centroids:InstanceCentroidFinder.__iter__", "self.anchor_ind")]
+    for q, want in sites:
+        fi = prog.func(q)
+        res.touch(fi)
+        calls = [c for c, qq in prog.calls_in(fi) if qq == gc]
+        binds = {}
+        for c in calls:
+            st = enclosing_stmt18(c)
+            for t in (astq.stmt_targets(st) if isinstance(st, (ast.Assign, ast.AnnAssign)) else []):
+                binds.setdefault(norm(t), []).append(c)
+        ok = len(calls) >= 1
+        why = f"{fi.name} no longer calls generate_centroids"
+        for tname, cs in binds.items():
+            # every binding of that name comes from generate_centroids, with the configured anchor
+            alld = [s_ for s_ in walk_function(fi.node) if isinstance(s_, (ast.Assign, ast.AnnAssign)) and any(norm(t_) == tname for t_ in astq.stmt_targets(s_))]
+            # (a re-binding computed FROM the name itself - `centroids = centroids[0]`, a scaling - still carries the fallback)
+            other = [s_ for s_ in alld if not any(c_ in list(ast.walk(s_)) for c_ in cs) and tname not in {norm(n_) for n_ in ast.walk(getattr(s_, "value", None) or ast.Pass()) if isinstance(n_, (ast.Name, ast.Subscript, ast.Attribute))}]
+            if other:
+                ok, why = False, f"`{tname}` is also bound by `{short(other[0], 60)}`, bypassing generate_centroids (no bounding-box fallback for a missing anchor)"
+            for c in cs:
+                a = astq.bind_args(prog.func(gc), c).get("anchor_ind")
+                got = norm(astq.expand_at(fi.node, a, enclosing_stmt18(c))) if a is not None else None
+                if got != want:
+                    ok, why = False, f"generate_centroids is called with anchor_ind=`{got}` (expected `{want}`)"
+        res.ob(R, ok, fi.qualname, f"centroids = generate_centroids(instances, anchor_ind={want})", why, fi.where)
+
+
 def check(prog: Program, res: Result) -> None:
     # the cached sample a dataset hands out is never written through (a second read of the same index must give the same
     # targets): shared with C11-cache
@@ -674,6 +710,7 @@ def check(prog: Program, res: Result) -> None:
     _edges.check_edge_order(prog, res, "C18-edges")
     check_crop_size(prog, res)
     check_precrop(prog, res)
+    check_centroids(prog, res)
     check_frame(prog, res)
     check_npz(prog, res)
     check_wiring(prog, res)
